@@ -6,8 +6,17 @@
 //	             nil-break (if exec == nil { break }), m-nil (if m == nil { m = originalExecNode(n, exec); continue }),
 //	             switch (the re-derivation switch)
 //	probeOrder   the cases of that switch: tnext (isExecNode(m.tnext, exec) → m = m.tnext), fnext, original (default)
-//	cmpByPointer isExecNode returns false on nil operands and otherwise compares
-//	             reflect.ValueOf(n.exec).Pointer() with reflect.ValueOf(exec).Pointer()
+//	execCmp      what isExecNode compares after returning false on nil operands: "closure-identity"
+//	             (execID(n.exec) == execID(exec), execID being the word of the func value) or "code-pointer"
+//	             (reflect.ValueOf(n.exec).Pointer() == reflect.ValueOf(exec).Pointer(), the code shared by all
+//	             the closures of one generator)
+//	acceptsForward  isExecNode also accepts `n.debug != nil && n.debug.forward != nil &&
+//	             execID(n.debug.forward) == execID(exec)`
+//	origCmp      the test of the callback of originalExecNode: "isExecNode" (isExecNode(wn, exec)) or
+//	             "code-pointer" (reflect.ValueOf(wn.exec).Pointer() == execAddr)
+//	backEdge     what setExec installs on a successor that is being generated (a back edge):
+//	             "forward-recorded" (setForwardExec: the forwarding closure is stored in n.exec and in
+//	             n.debug.forward) or "forward-unrecorded" (a forwarding closure stored in n.exec only)
 //	caseOrder    the cases of the switch of (*Debugger).exec: terminate, break, run, out, over
 //	overCmp/outCmp  the operator of `g.fDepth OP g.fStep` under which execution continues
 //	noPosSkips   `if n != nil && n.pos == token.NoPos { return false }` precedes the switch
@@ -126,23 +135,113 @@ func loopFacts(fd *ast.FuncDecl) (order, probes []string) {
 	return order, probes
 }
 
-// cmpByPointer recognises the body of isExecNode.
-func cmpByPointer(fd *ast.FuncDecl) bool {
-	if fd == nil || fd.Body == nil || len(fd.Body.List) != 4 {
-		return false
+const nilGuard = "if n == nil || n.exec == nil || exec == nil { return false }"
+
+// execCmp recognises the body of isExecNode (and of execID).
+func execCmp(file *ast.File) (cmp string, forward bool) {
+	fd := common.FindFunc(file, "", "isExecNode")
+	if fd == nil || fd.Body == nil {
+		return "unrecognised: isExecNode not found", false
 	}
-	want := []string{
-		"if n == nil || n.exec == nil || exec == nil { return false }",
-		"a1 := reflect.ValueOf(n.exec).Pointer()",
-		"a2 := reflect.ValueOf(exec).Pointer()",
-		"return a1 == a2",
+	if src(fd.Type) != "func(n *node, exec bltn) bool" {
+		return "unrecognised: signature " + src(fd.Type), false
 	}
-	for i, st := range fd.Body.List {
-		if src(st) != want[i] {
-			return false
+	var sts []string
+	for _, st := range fd.Body.List {
+		sts = append(sts, src(st))
+	}
+	if len(sts) == 0 || sts[0] != nilGuard {
+		return "unrecognised: no nil guard", false
+	}
+	rest := strings.Join(sts[1:], "; ")
+	const byID = "execID(n.exec) == execID(exec)"
+	const fwd = "n.debug != nil && n.debug.forward != nil && execID(n.debug.forward) == execID(exec)"
+	switch rest {
+	case "a1 := reflect.ValueOf(n.exec).Pointer(); a2 := reflect.ValueOf(exec).Pointer(); return a1 == a2":
+		return "code-pointer", false
+	case "return " + byID, "return " + byID + " || " + fwd:
+		id := common.FindFunc(file, "", "execID")
+		if id == nil || src(id.Type) != "func(exec bltn) unsafe.Pointer" || src(id.Body) != "{ return *(*unsafe.Pointer)(unsafe.Pointer(&exec)) }" {
+			return "unrecognised: execID", false
+		}
+		return "closure-identity", rest != "return "+byID
+	}
+	return "unrecognised: " + rest, false
+}
+
+// origCmp recognises the test under which the callback of originalExecNode records a node.
+func origCmp(fd *ast.FuncDecl) string {
+	if fd == nil || fd.Body == nil {
+		return "unrecognised: originalExecNode not found"
+	}
+	var found []string
+	ast.Inspect(fd.Body, func(n ast.Node) bool {
+		is, ok := n.(*ast.IfStmt)
+		if ok && is.Init == nil && is.Else == nil && src(is.Body) == "{ originalNode = wn return false }" {
+			found = append(found, src(is.Cond))
+		}
+		return true
+	})
+	if len(found) != 1 {
+		return fmt.Sprintf("unrecognised: %d recording tests", len(found))
+	}
+	switch found[0] {
+	case "isExecNode(wn, exec)":
+		return "isExecNode"
+	case "reflect.ValueOf(wn.exec).Pointer() == execAddr":
+		if strings.Contains(src(fd.Body), "execAddr := reflect.ValueOf(exec).Pointer()") {
+			return "code-pointer"
 		}
 	}
-	return src(fd.Type) == "func(n *node, exec bltn) bool"
+	return "unrecognised: " + found[0]
+}
+
+// backEdge recognises what setExec does with a successor that is being generated.
+func backEdge(file *ast.File) string {
+	fd := common.FindFunc(file, "", "setExec")
+	if fd == nil || fd.Body == nil {
+		return "unrecognised: setExec not found"
+	}
+	kinds := map[string]bool{}
+	count := 0
+	ast.Inspect(fd.Body, func(n ast.Node) bool {
+		is, ok := n.(*ast.IfStmt)
+		if !ok || is.Init != nil {
+			return true
+		}
+		for _, x := range []string{"tnext", "fnext"} {
+			if src(is.Cond) != "seen[n."+x+"]" {
+				continue
+			}
+			count++
+			switch src(is.Body) {
+			case "{ setForwardExec(n." + x + ") }":
+				kinds["forward-recorded"] = true
+			case "{ m := n." + x + " n." + x + ".exec = func(f *frame) bltn { return m.exec(f) } }":
+				kinds["forward-unrecorded"] = true
+			default:
+				kinds["unrecognised: "+src(is.Body)] = true
+			}
+			if is.Else == nil || src(is.Else) != "{ set(n."+x+") }" {
+				kinds["unrecognised: else "+x] = true
+			}
+		}
+		return true
+	})
+	if count != 2 || len(kinds) != 1 {
+		return fmt.Sprintf("unrecognised: %d back-edge tests, %d kinds", count, len(kinds))
+	}
+	for k := range kinds {
+		if k == "forward-recorded" {
+			fw := common.FindFunc(file, "", "setForwardExec")
+			want := "{ n.exec = func(f *frame) bltn { return n.exec(f) } if n.debug == nil { n.debug = new(nodeDebugData) } n.debug.forward = n.exec }"
+			if fw == nil || src(fw.Type) != "func(n *node)" || src(fw.Body) != want {
+				return "unrecognised: setForwardExec"
+			}
+		}
+		return k
+	}
+	return "unrecognised"
 }
 
 func dbgExecFacts(fd *ast.FuncDecl) (cases []string, over, out string, noPos bool) {
@@ -278,6 +377,7 @@ func main() {
 			return "", err
 		}
 		order, probes := loopFacts(common.FindFunc(run, "", "runCfg"))
+		cmp, fwd := execCmp(run)
 		cases, over, out, noPos := dbgExecFacts(common.FindFunc(dbg, "Debugger", "exec"))
 		b := func(v bool) string {
 			if v {
@@ -292,7 +392,10 @@ open YaegiVerif.Debug
 def facts : DebugLoopFacts :=
   { loopOrder := %s,
     probeOrder := %s,
-    cmpByPointer := %s,
+    execCmp := %s,
+    acceptsForward := %s,
+    origCmp := %s,
+    backEdge := %s,
     caseOrder := %s,
     overCmp := %s,
     outCmp := %s,
@@ -305,13 +408,14 @@ def sourceHashes : List (String × String) :=
   %s ++
   %s
 end YaegiVerif.Generated.C19
-`, common.LeanStrList(order), common.LeanStrList(probes), b(cmpByPointer(common.FindFunc(run, "", "isExecNode"))),
+`, common.LeanStrList(order), common.LeanStrList(probes), common.LeanStr(cmp), b(fwd),
+			common.LeanStr(origCmp(common.FindFunc(run, "", "originalExecNode"))), common.LeanStr(backEdge(cfg)),
 			common.LeanStrList(cases), common.LeanStr(over), common.LeanStr(out), b(noPos), common.LeanStrList(depthOps(dbg)),
-			common.HashTable(fsetR, run, [][2]string{{"", "runCfg"}, {"", "isExecNode"}, {"", "originalExecNode"}}),
+			common.HashTable(fsetR, run, [][2]string{{"", "runCfg"}, {"", "isExecNode"}, {"", "execID"}, {"", "originalExecNode"}}),
 			common.HashTable(fsetD, dbg, [][2]string{{"Debugger", "exec"}, {"Debugger", "enterCall"}, {"Debugger", "exitCall"},
 				{"Debugger", "SetBreakpoints"}, {"debugRoutine", "setMode"}, {"Debugger", "Continue"}, {"Debugger", "Step"},
 				{"Debugger", "Terminate"}, {"Interpreter", "Debug"}}),
 			common.HashTable(fsetI, itp, [][2]string{{"node", "shouldBreak"}, {"node", "setBreakOnLine"}, {"node", "setBreakOnCall"}, {"node", "Walk"}}),
-			common.HashTable(fsetC, cfg, [][2]string{{"", "setExec"}, {"", "getExec"}})), nil
+			common.HashTable(fsetC, cfg, [][2]string{{"", "setExec"}, {"", "setForwardExec"}, {"", "getExec"}})), nil
 	})
 }
